@@ -287,3 +287,24 @@ def builtin_exc_ancestors(name):
         if name in out:
             break
     return out
+
+
+class Volatile:
+    """value of an environment attribute that may differ at every read"""
+
+    def __init__(self, value):
+        self.value = value
+
+
+class StreamV:
+    """adversarial stream (a generator owned by the environment / summarised callee): `for` loops over it are verified
+    inductively through Interp.for_stream; next_elem(I, index) produces an arbitrary next element"""
+
+    def __init__(self, name, next_elem):
+        self.name, self.next_elem = name, next_elem
+
+    def truth(self, I):
+        return True
+
+    def sym_for(self, I, s, fr, spec):
+        return I.for_stream(s, fr, spec, self.next_elem, self.name)
